@@ -58,6 +58,29 @@ def patched_matcher(pattern, subs=None):
     return re.compile(regex)
 
 
+BACKREF_MECH = ("trailing back-reference to an empty capture accepts a path that ends in a "
+                "separator (empty last component)")
+
+
+def ends_in_backreference(pattern):
+    """The pattern ends with a named wildcard whose name already occurred before."""
+    m = re.search(r"\$\{\*([a-zA-Z0-9_]+)\}$", pattern)
+    return m is not None and pattern.count("${*" + m.group(1) + "}") >= 2
+
+
+def backref_matcher(pattern, subs=None, neg=False):
+    """The pattern's matcher, additionally refusing an empty last component.
+
+    Used only to *classify* a discrepancy as the listed finding BACKREF_MECH.
+    """
+    from stepup.core.nglob import convert_nglob_to_regex
+
+    regex = convert_nglob_to_regex(pattern, dict(subs or {}))
+    if neg:
+        regex = re.sub(r"\[\^(?!/)", "[^/", regex)
+    return re.compile(regex + r"(?<!/)")
+
+
 def has_negated_class(pattern, subs=None):
     return "[!" in pattern or any("[!" in v for v in (subs or {}).values())
 
@@ -496,6 +519,14 @@ def run_case(case):
                     else:
                         counters["update_changed"] += 1
                     w = {"pattern": pat, "tree1": tree_desc, "tree2": sorted(after_paths)}
+                    if ends_in_backreference(pat) and (same != (evolved is None) or (
+                            evolved is not None and evolved.results != ng2.results)):
+                        rxb = backref_matcher(pat, neg=has_negated_class(pat))
+                        ev_files = {str(p) for p in (evolved or ng1).files()}
+                        if all(rxb.fullmatch(p) is None for p in ev_files ^ files2):
+                            vio(BACKREF_MECH, f"{pat!r} deleted={dele} added={add}: updated="
+                                f"{sorted(ev_files)} scan={sorted(files2)}", w)
+                            continue
                     if has_negated_class(pat) and (same != (evolved is None) or (
                             evolved is not None and evolved.results != ng2.results)):
                         # Is the disagreement explained by the listed finding alone?
